@@ -56,8 +56,13 @@ class Check:
 
     # -- declaring rules and recording verdicts --------------------------------------------
     def rule(self, rid, text, floor=0):
+        """floor: the number of instances confirmed by hand on the pinned tree.  The check fails closed (exit 2) when a
+        rule sees fewer than its *effective* floor: small floors (structural anchors, <= 5) are exact; larger ones count
+        grammar alternatives or call sites, which a behaviour-preserving merge of alternatives legitimately reduces,
+        so they tolerate a loss of 40% -- a rule that lost more than that has most likely lost its anchor."""
         r = Rule(rid, text)
-        r.floor = floor
+        r.declared_floor = floor
+        r.floor = floor if floor <= 5 else max(5, int(floor * 0.6))
         self.rules[rid] = r
         return r
 
